@@ -291,6 +291,9 @@ def match_link_title(string, offset):
             escaped = True
         elif c == closing and not escaped:
             return offset, i + 1, string[offset + 1:i]
+        elif c == '(' and closing == ')' and not escaped:
+            # a title in parentheses holds parentheses only if they are escaped
+            return None
         elif escaped:
             escaped = False
     return None
